@@ -134,3 +134,61 @@ Definition run_memseq (c : tr) : tr :=
          L (map (fun pi => L [estr (fst pi); elist estr (nth (snd pi) (s_heap s) [])]) (s_root s))]
   | None => ebad
   end.
+
+(* --- specification: the same histories without a heap ------------------------------------------------
+   Every path has a generation number (how many times it was re-created by a 'w' open) and its records;
+   a handle remembers the generation it was opened on and appends only while that generation is the
+   current one (a writer left over from before a truncating re-open writes into a list nobody can reach). *)
+Record ahandle : Type := { ah_path : str; ah_gen : nat; ah_mode : mode; ah_closed : bool }.
+Record astate : Type := { a_files : list (str * (nat * list str)); a_handles : list ahandle }.
+Definition a_empty : astate := {| a_files := []; a_handles := [] |}.
+
+Fixpoint flookup (p : str) (fs : list (str * (nat * list str))) : option (nat * list str) :=
+  match fs with
+  | [] => None
+  | (p', x) :: r => if str_eqb p p' then Some x else flookup p r
+  end.
+Fixpoint fset (p : str) (x : nat * list str) (fs : list (str * (nat * list str))) : list (str * (nat * list str)) :=
+  match fs with
+  | [] => [(p, x)]
+  | (p', y) :: r => if str_eqb p p' then (p', x) :: r else (p', y) :: fset p x r
+  end.
+
+Definition astep_seq (a : astate) (o : sop) : astate :=
+  match o with
+  | SOpen p m =>
+      match flookup p (a_files a) with
+      | None => {| a_files := fset p (O, []) (a_files a);
+                   a_handles := a_handles a ++ [{| ah_path := p; ah_gen := O; ah_mode := m; ah_closed := false |}] |}
+      | Some (g, rs) =>
+          if m_w m then {| a_files := fset p (S g, []) (a_files a);
+                           a_handles := a_handles a ++ [{| ah_path := p; ah_gen := S g; ah_mode := m; ah_closed := false |}] |}
+          else {| a_files := a_files a;
+                  a_handles := a_handles a ++ [{| ah_path := p; ah_gen := g; ah_mode := m; ah_closed := false |}] |}
+      end
+  | SAdd h r =>
+      match nth_error (a_handles a) h with
+      | None => a
+      | Some hd =>
+          if negb (m_w (ah_mode hd) || m_a (ah_mode hd)) then a
+          else if ah_closed hd then a
+          else match flookup (ah_path hd) (a_files a) with
+               | Some (g, rs) => if Nat.eqb g (ah_gen hd)
+                                 then {| a_files := fset (ah_path hd) (g, rs ++ [r]) (a_files a); a_handles := a_handles a |}
+                                 else a
+               | None => a
+               end
+      end
+  | SClose h =>
+      {| a_files := a_files a;
+         a_handles := list_upd (a_handles a) h
+                        (fun hd => {| ah_path := ah_path hd; ah_gen := ah_gen hd; ah_mode := ah_mode hd; ah_closed := true |}) |}
+  | _ => a
+  end.
+Definition arun_seq (a : astate) (h : list sop) : astate := fold_left astep_seq h a.
+(* the records appended to path p that a new reader sees *)
+Definition appended (h : list sop) (p : str) : list str :=
+  match flookup p (a_files (arun_seq a_empty h)) with
+  | Some (_, rs) => rs
+  | None => []
+  end.
